@@ -68,7 +68,9 @@ pub fn describe(mode: &str, case: &Case) -> Outcome {
     let mut out = Outcome::new(&case.model);
     let mut r = SmallRng::seed_from_u64(case.sub);
     match mode {
-        "c12" => {}
+        "c12" | "c07" | "c08" | "c16" | "c06" | "c19" => {}
+        "c09" => crate::props_b::cfg_c09(&mut r).label(&mut out),
+        "c18" => crate::props_b::cfg_c18(case, &mut r).label(&mut out),
         _ => Config::random(&mut r).label(&mut out),
     }
     out
